@@ -153,6 +153,10 @@ Definition sample_tree : list item :=
     INs "outer" [ INs "inner" [ IFn (sample_type, "make", [(sample_type, "x")]); IVar sample_type "origin" ]; INs "empty" [ IFwd true "Base" ];
                   IFn (TPlain (tn [] "Key") false PNone false, "g", []) ];
     IFn (TPlain (tn [] "double") false PNone true, "h", []);
+    IClass true "Pose2" [ MC []; MC [(TPlain (tn [] "double") false PNone true, "x"); (TPlain (tn ["gtsam"] "Rot2") true PRef false, "r")];
+                          MM (TPlain (tn [] "double") false PNone true) "norm" [] true;
+                          MM (TPlain (tn [] "void") false PNone true) "scale" [(TPlain (tn [] "double") false PNone true, "s")] false;
+                          MP (TPlain (tn ["gtsam"] "Rot2") false PNone false) "rot" ];
     IFnP (TPlain (tn ["gtsam"] "Pose3") true PRef false) (TPlain (tn [] "bool") false PNone true) "split" [(sample_type, "x")] ]%string.
 Example C01_items_nonvacuous :
   (forall i, In i sample_tree -> idepth i < depth_fuel /\ wf_item i) /\
@@ -165,6 +169,8 @@ Example C01_items_nonvacuous :
      " ( const gtsam :: Foo < int , std :: vector < Bar * > , const ns :: a :: K < double & > @ > & x ) ;" ++
      " const gtsam :: Foo < int , std :: vector < Bar * > , const ns :: a :: K < double & > @ > & origin ; }" ++
      " namespace empty { virtual class Base ; } Key g ( ) ; } double h ( ) ;" ++
+     " virtual class Pose2 { Pose2 ( ) ; Pose2 ( double x , const gtsam :: Rot2 & r ) ; double norm ( ) const ;" ++
+     " void scale ( double s ) ; gtsam :: Rot2 rot ; } ;" ++
      " pair < const gtsam :: Pose3 & , bool > split ( const gtsam :: Foo < int , std :: vector < Bar * > , const ns :: a :: K < double & > @ > & x ) ;")%string /\
   print_decls (map idecl sample_tree) = Some (print_items sample_tree).
 Proof.
